@@ -9,7 +9,7 @@
 (*           6 = sharp s (folds to <<7, 7>>), 7 = 's'.                     *)
 (***************************************************************************)
 EXTENDS World
-CONSTANTS MaxOps, Tier
+CONSTANTS MaxOps, Tier, Wide
 
 Fold(ch) == IF ch = 2 THEN <<1>> ELSE IF ch = 6 THEN <<7, 7>> ELSE <<ch>>
 MCDefaultDelim == <<4>>
@@ -19,7 +19,10 @@ UPool == IF Tier = "quick" THEN {<<1>>, <<2>>, <<1, 3>>} ELSE {<<>>, <<1>>, <<2>
 Opt(S) == {{}} \cup {{x} : x \in S}
 ValidPool == {r \in {Rec(p, u, ps, us, NoPat) : p \in PPool, u \in UPool, ps \in Opt(PPool), us \in Opt(UPool)} : ValidRec(r)}
 \* arguments of add_record: no synonyms in the thorough tier to keep the branching finite
-ArgPool == IF Tier = "quick"
+\* Wide = TRUE: every record with at most one synonym per side as argument AND as starting converter (used with MaxOps = 1:
+\* wide and shallow); Wide = FALSE: the narrow pools below (deep)
+OneSyn == {r \in ValidPool : r.ps = {} \/ r.us = {}}
+ArgPool == IF Wide THEN OneSyn ELSE IF Tier = "quick"
            THEN {r \in ValidPool : r.ps = {} /\ r.us = {}}
                 \cup {r \in ValidPool : r.us = {} /\ r.ps = {<<2>>} /\ r.p = <<1>>}
                 \cup {r \in ValidPool : r.ps = {} /\ r.us = {<<2>>} /\ r.u = <<1>>}
@@ -31,7 +34,7 @@ Probes == StringsUpTo({1, 2, 3, 4}, 2)
 
 MCNext ==
   \/ /\ Len(hist) = 0
-     /\ \E d \in Delims : ANew(<<>>, d) \/ \E r \in (IF Tier = "quick" THEN ArgPool ELSE ValidPool) : ANew(<<r>>, d)
+     /\ \E d \in Delims : ANew(<<>>, d) \/ \E r \in (IF Wide \/ Tier # "quick" THEN ValidPool ELSE ArgPool) : ANew(<<r>>, d)
   \/ /\ Len(hist) >= 1 /\ Len(hist) <= MaxOps /\ Len(convs) = 1
      /\ \E r \in ArgPool, cs \in BOOLEAN, mg \in BOOLEAN : AAdd(1, r, cs, mg, "record")
 MCSpec == Init /\ [][MCNext]_vars
